@@ -119,3 +119,9 @@ func (w *World) PeerDial(ctx context.Context, label string, src netip.Addr, netw
 func (w *World) PeerDialUDP(label string, src netip.Addr, address string) (*UDPConn, error) {
 	return w.dialUDP(OwnerPeer, label, src, address)
 }
+
+// DialProxy opens a stream connection owned by the proxy (for injected
+// dialers built by the harness).
+func (w *World) DialProxy(ctx context.Context, network, address string) (net.Conn, error) {
+	return w.dial(ctx, OwnerProxy, "", netip.Addr{}, network, address)
+}
